@@ -477,7 +477,7 @@ func (r *runner) run(out, onlyEntry string) int {
 				Unwind: tc.Unwind, Depth: tc.Depth, Steps: tc.Steps, MaxPaths: tc.Paths,
 				QueryTimeout: tc.QueryTimeoutS * 1000, MaxIte: 64, Params: tc.Params,
 				MapOrder: u.MapOrder, GoMode: u.GoMode, ChanUnbounded: u.ChanUnbounded,
-				SkipInit: append([]string{"google.golang.org/protobuf", "github.com/prometheus", "google.golang.org/grpc", "regexp", "github.com/nspcc-dev/neo-go/pkg/config", "net/http", "crypto/tls", "crypto/x509", "testing", "os", "syscall", "runtime", "internal", "net", "reflect", "encoding/json", "html", "text/template"}, u.SkipInit...),
+				SkipInit: append([]string{"runtime", "internal/cpu", "internal/godebug", "testing"}, u.SkipInit...),
 				Workers: workers(), SolverBin: orStr(u.Solver, "z3"), Fallback: u.Fallback, KeepScripts: tc.CrossCheck,
 				ExpectReach: e.Reach, Havoc: append([]string{"go.uber.org/zap"}, u.Havoc...),
 				TimeBudget: time.Duration(tc.TimeBudgetS) * time.Second,
